@@ -173,3 +173,33 @@ func c15GenDebug(r *Run) {
 		fmt.Printf("  %4d %s\n", v, k)
 	}
 }
+
+func init() { registry["C12ONE"] = c12One }
+
+// C12ONE: evaluate the sheet pair of one replay file (VERIF_REPLAY) in Chrome and print every differing value
+func c12One(r *Run) {
+	var doc struct {
+		Case map[string]interface{} `json:"case"`
+	}
+	if err := readJSON(os.Getenv("VERIF_REPLAY"), &doc); err != nil {
+		fmt.Println(err)
+		return
+	}
+	a, _ := doc.Case["input"].(string)
+	if a == "" {
+		a, _ = doc.Case["reference_inlining"].(string)
+	}
+	b, _ := doc.Case["output"].(string)
+	scratch, _ := os.MkdirTemp("/tmp", "verif-c12one-")
+	defer os.RemoveAll(scratch)
+	res, err := runChrome(chromePath(), scratch, 0, []chromeCase{{ID: 0, A: a, B: b, Dom: cssDOM, Widths: []int{320, 700, 1100}, AllDiffs: true}})
+	if err != nil {
+		fmt.Println(err)
+		return
+	}
+	for _, cr := range res {
+		for _, d := range cr.Diffs {
+			fmt.Printf("  width %d  %-8s %-28s %q -> %q\n", d.Width, d.El, d.Prop, d.A, d.B)
+		}
+	}
+}
